@@ -660,3 +660,79 @@ pub fn long_queue_checks() -> Vec<String> {
     }
     fails
 }
+
+/// A consumer whose data type's From<Vec<u8>> conversion panics (user code of the generic D): the panicking
+/// task's body is dropped, and the writer must then be TOLD -- errors from write / flush, not a panic of its
+/// own (C11: "once the response body has been dropped ... `flush` and any chunk-completing `write` return an
+/// error"). Harness-level checks.
+pub fn poisoning_consumer_checks() -> Vec<String> {
+    use std::sync::atomic::{AtomicBool, Ordering};
+    static BLOW: AtomicBool = AtomicBool::new(false);
+    struct Pooled(Bytes);
+    impl From<Vec<u8>> for Pooled {
+        fn from(v: Vec<u8>) -> Self {
+            if BLOW.load(Ordering::SeqCst) {
+                std::panic::resume_unwind(Box::new("conversion failed"));
+            }
+            Pooled(Bytes::from(v))
+        }
+    }
+    impl From<&'static [u8]> for Pooled {
+        fn from(v: &'static [u8]) -> Self {
+            Pooled(Bytes::from_static(v))
+        }
+    }
+    impl bytes::Buf for Pooled {
+        fn remaining(&self) -> usize {
+            self.0.remaining()
+        }
+        fn chunk(&self) -> &[u8] {
+            self.0.chunk()
+        }
+        fn advance(&mut self, n: usize) {
+            self.0.advance(n)
+        }
+    }
+    let mut fails = vec![];
+    for gzip in [false, true] {
+        BLOW.store(false, Ordering::SeqCst);
+        let mut rb = http::Request::builder().method("GET");
+        if gzip {
+            rb = rb.header("accept-encoding", "gzip");
+        }
+        let req = rb.body(()).unwrap();
+        let (resp, writer) = http_serve::streaming_body(&req).with_chunk_size(4).build::<Pooled, BoxError>();
+        let mut w = writer.unwrap();
+        let mut body = Box::pin(resp.into_body());
+        let waker = crate::serve_engine::noop_waker();
+        let mut cx = Context::from_waker(&waker);
+        let tag = format!("gzip={}", gzip);
+        let _ = w.write_all(b"abcdefghijkl");
+        let _ = w.flush();
+        // one chunk normally, then a conversion that panics, then the task (and its body) is gone
+        let _ = body.as_mut().poll_frame(&mut cx);
+        BLOW.store(true, Ordering::SeqCst);
+        let r = catch_unwind(AssertUnwindSafe(|| {
+            let _ = body.as_mut().poll_frame(&mut cx);
+        }));
+        BLOW.store(false, Ordering::SeqCst);
+        if r.is_ok() {
+            // the conversion was not reached (nothing queued): nothing to check in this variant
+        }
+        drop(body);
+        let told = catch_unwind(AssertUnwindSafe(|| {
+            let a = w.write_all(b"mnopqrstuvwx");
+            let b = w.flush();
+            let c = w.write_all(b"yz012345");
+            let d = w.flush();
+            drop(w);
+            a.is_err() || b.is_err() || c.is_err() || d.is_err()
+        }));
+        match told {
+            Err(_) => fails.push(format!("writer-panics-after-the-consumer-died-in-its-own-code({})", tag)),
+            Ok(false) => fails.push(format!("writer-not-told-after-the-body-was-dropped({})", tag)),
+            Ok(true) => {}
+        }
+    }
+    fails
+}
